@@ -72,6 +72,7 @@ type PathResult struct {
 	Asserts    int // assertion obligations checked
 	Discharged int
 	NewWork    [][]Decision
+	ForkSites  []string
 	Trace      []Decision
 	Sample     string
 	Observed   []string
@@ -185,6 +186,7 @@ func (p *Path) branch(c *Term) bool {
 		switch {
 		case tOK && fOK:
 			p.res.Forks++
+			p.noteFork()
 			alt := append(append([]Decision{}, p.trace...), Decision{Taken: false})
 			p.res.NewWork = append(p.res.NewWork, alt)
 			taken = true
@@ -206,6 +208,16 @@ func (p *Path) branch(c *Term) bool {
 }
 
 // concretize enumerates the feasible concrete values of t (forking per value).
+// noteFork records where a fork happened (fork histogram of -v: finds the location that multiplies paths).
+func (p *Path) noteFork() {
+	n := len(p.stack)
+	lo := n - 2
+	if lo < 0 {
+		lo = 0
+	}
+	p.res.ForkSites = append(p.res.ForkSites, strings.Join(p.stack[lo:], " > "))
+}
+
 func (p *Path) concretize(t *Term) uint64 {
 	for {
 		if t.IsConst() {
@@ -229,6 +241,7 @@ func (p *Path) concretize(t *Term) uint64 {
 			other := p.feasible(p.w.tt.Not(eq))
 			if other {
 				p.res.Forks++
+				p.noteFork()
 				alt := append(append([]Decision{}, p.trace...), Decision{Taken: false, Val: v, Conc: true})
 				p.res.NewWork = append(p.res.NewWork, alt)
 			}
